@@ -360,6 +360,32 @@ pub fn subjects(thorough: bool) -> Vec<Subject> {
         l.tiles.insert(10, b"last".to_vec());
         v.push(Subject { name: "lib-tiles-above-1MiB/gzip".into(), bytes: write_lib(&l, Api::Sync).unwrap(), case: json!({"lib":"huge-tiles"}) });
     }
+    // a tile above 16 MiB (not a multiple of it) followed by further tiles
+    {
+        let mut l = small_logical(Compression::None);
+        l.tiles.insert(7, crate::common::xorshift_bytes(79, (16 << 20) + 70_001));
+        l.tiles.insert(8, b"behind-the-very-big-one".to_vec());
+        l.tiles.insert(9, crate::common::xorshift_bytes(80, 300_000));
+        v.push(Subject { name: "lib-tile-above-16MiB/none".into(), bytes: write_lib(&l, Api::Async).unwrap(), case: json!({"lib":"tile-above-16MiB"}) });
+    }
+    // one leaf directory of 20 000 irregular entries: its stored form is far above 16 KiB for every codec (the library's
+    // own writer never produces such a leaf), and it is the last thing in front of the tile data
+    for comp in 1..=4u8 {
+        use crate::spec::archive::{encode_foreign, Layout, Node};
+        use crate::spec::dir::SEntry;
+        let data: Vec<u8> = crate::common::xorshift_bytes(5, 64);
+        let noise = crate::common::xorshift_bytes(6, 60_000);
+        let mut id = 0u64;
+        let entries: Vec<Node> = (0..20_000usize)
+            .map(|k| {
+                id += 1 + u64::from(noise[3 * k] % 3);
+                Node::Tile(SEntry::new(id, u64::from(noise[3 * k + 1] % 60), 1 + u32::from(noise[3 * k + 2] % 4), 1))
+            })
+            .collect();
+        let root = vec![Node::Tile(SEntry::new(0, 0, 3, 1)), Node::Leaf(1, entries)];
+        let f = encode_foreign(&root, &data, Some(b"{}"), comp, &Layout::default(), crate::spec::header::SHeader { tile_type: 2, tile_compression: 1, ..crate::spec::header::SHeader::default() });
+        v.push(Subject { name: format!("foreign/one-big-leaf/c{comp}"), bytes: f.bytes, case: json!({"foreign":"one-big-leaf","comp":comp}) });
+    }
     for comp in 1..=4u8 {
         v.push(Subject { name: format!("foreign/mixed-shorthand/c{comp}"), bytes: foreign::mixed_shorthand(comp).bytes, case: json!({"foreign":"mixed-shorthand","comp":comp}) });
     }
@@ -398,7 +424,7 @@ fn ranges_for(s: &Subject) -> Vec<Rng> {
 pub fn run(tier: &str) -> i32 {
     let rep = Report::new("C20", tier, "exploration");
     let thorough = rep.thorough();
-    rep.rule("library-written archives (small, alternating duplicates, leaf spill; 4 compressions) and the foreign product of C03 (section permutations so that tile data directly follows each directory/metadata section, gaps filled with a sentinel, depth 1-3, 4 compressions), opened in full and with three range filters through the sync and the async reader over a recording stream, followed by a lookup of EVERY addressed id and of absent neighbours; oracle on the bytes returned by the stream: open touches only header, metadata, root and leaf sections and never the tile-data section; a lookup's returned ranges unite to exactly the tile's range; absent ids read nothing; additionally sessions of lookups with ONE transient stream failure at every call index (optionally after a 1- or 2-byte short read): every later Ok lookup returns the tile and reads inside its range; and async sessions in which a lookup future is dropped at a Pending answer and the lookup is retried; non-trivial = archives with >= 1 tile");
+    rep.rule("library-written archives (small, alternating duplicates, leaf spill, big metadata, tiles above 1 MiB and above 16 MiB; 4 compressions), a foreign archive with one leaf directory of 20 000 entries (stored form far above 16 KiB) and the foreign product of C03 (section permutations so that tile data directly follows each directory/metadata section, gaps filled with a sentinel, depth 1-3, 4 compressions), opened in full and with three range filters through the sync and the async reader over a recording stream, followed by a lookup of EVERY addressed id and of absent neighbours; oracle on the bytes returned by the stream: open touches only header, metadata, root and leaf sections and never the tile-data section; a lookup's returned ranges unite to exactly the tile's range; absent ids read nothing; additionally sessions of lookups with ONE transient stream failure at every call index (optionally after a 1- or 2-byte short read): every later Ok lookup returns the tile and reads inside its range; and async sessions in which a lookup future is dropped at a Pending answer and the lookup is retried; non-trivial = archives with >= 1 tile");
     rep.assume("how often or in how many calls a section is read is not constrained; only which bytes are returned to the library");
     let subs = subjects(thorough);
     let res: Vec<(usize, Api, Rng, Vec<(String, String)>)> = subs
